@@ -545,6 +545,10 @@ func TarWriterWriteHeader(tw *tar.Writer, hdr *tar.Header) error {
 	if hdr.Size < 0 {
 		return ErrHeader
 	}
+	if len(hdr.PAXRecords) > 0 && (hdr.Format == tar.FormatUSTAR || hdr.Format == tar.FormatGNU) {
+		// archive/tar: "cannot encode header: Format specifies USTAR; and only PAX supports PAXRecords" (probed natively)
+		return NewError("archive/tar: cannot encode header: only PAX supports PAXRecords")
+	}
 	t := st.f.T
 	hb := int64(Int("tw.hblocks", 1, 8))
 	Assume(hb != 2)
